@@ -63,6 +63,20 @@ func init() {
 		"strings.TrimSpace":  stubTrimSpace,
 		"strings.TrimPrefix": stubTrimPrefix,
 		"strings.TrimSuffix": stubTrimSuffix,
+		"strings.CutPrefix": func(p *path, _ *frame, a []value) value {
+			s, pre := a[0].(Str), a[1].(Str)
+			if len(pre.b) <= len(s.b) && p.branch(p.strHasPrefix(s, pre)) {
+				return tuple{Str{s.b[len(pre.b):]}, p.tc.tt}
+			}
+			return tuple{s, p.tc.ff}
+		},
+		"strings.CutSuffix": func(p *path, _ *frame, a []value) value {
+			s, suf := a[0].(Str), a[1].(Str)
+			if len(suf.b) <= len(s.b) && p.branch(p.strHasSuffix(s, suf)) {
+				return tuple{Str{s.b[:len(s.b)-len(suf.b)]}, p.tc.tt}
+			}
+			return tuple{s, p.tc.ff}
+		},
 		"strings.ReplaceAll": stubReplaceAll,
 		"strings.TrimRight":  func(p *path, _ *frame, a []value) value { return p.trimCutset(a[0].(Str), a[1].(Str), false, true) },
 		"strings.TrimLeft":   func(p *path, _ *frame, a []value) value { return p.trimCutset(a[0].(Str), a[1].(Str), true, false) },
